@@ -146,19 +146,21 @@ NA_REASON = {
 
 # clauses added in the fourth round (DESIGN.md §8.10); appended to the texts above
 ROUND4 = {
+ "C12": " Round 4: the file system offset is applied once on the way from a request to the undo key (C12.k; genuine defect found and repaired).",
+ "C16": " Round 4: every caller-supplied position is compared with the bitmap's start and end/real_end before a backend operation receives it (C16.e; genuine defect in the 64-bit bulk get/set found and repaired).",
  "C01": " Round 4: no index derived from the refcount list's count is used after a call that shrinks the list (C01.k); the block-walk protocol of check_blocks - BLOCK_CHANGED raises inode_modified, and the inode is re-read under it before any later write (C01.l); ext2fs_mark_valid() cannot follow a call from which a problem can be declined unless the declined verdict is re-applied before the passes run (C01.c, shared with C02).",
- "C02": " Round 4: block numbers are compared exclusively with ext2fs_blocks_count() at all 22 sites of e2fsck (C02.e); the verdict of a declined problem is never restored by a later ext2fs_mark_valid() (C02.c) - this rule found a genuine defect (exit 0 after 'Fix? no' before pass 1), repaired.",
+ "C02": " Round 4: block numbers are compared exclusively with ext2fs_blocks_count() at all 22 sites of e2fsck (C02.e); the verdict of a declined problem is never restored by a later ext2fs_mark_valid() (C02.c) - this rule found a genuine defect (exit 0 after 'Fix? no' before pass 1), repaired. Every non-root extent node has the depth its level gives it (C02.g; genuine defect found and repaired).",
  "C03": " Round 4: a ring cursor of the log is wrapped after every advance before it is read, copied, passed by address or returned (C03.h).",
  "C05": " Round 4: the logical and physical start of an extent move together in every compound update (C05.g).",
- "C06": " Round 4, absolute rules (not reference-based): a disk-derived value that bounds an index or pointer walk has passed a comparison of its own on every path, debugfs htree/logdump dumpers included (C06.c); every `while (1)` walk over the journal has a counter incremented and tested against a loop-invariant length on every turn (C06.d); a field released without being cleared is not released again by the function or its direct callers (C06.e). Three genuine defects found through these (SIGSEGV in debugfs htree, endless scan in e2fsck -p/-y and in debugfs logdump), repaired. Comparison shapes are strict and counted.",
+ "C06": " Round 4, absolute rules (not reference-based): a disk-derived value that bounds an index or pointer walk has passed a comparison of its own on every path, debugfs htree/logdump dumpers included (C06.c); every `while (1)` walk over the journal has a counter incremented and tested against a loop-invariant length on every turn (C06.d); a field released without being cleared is not released again by the function or its direct callers (C06.e). Three genuine defects found through these (SIGSEGV in debugfs htree, endless scan in e2fsck -p/-y and in debugfs logdump), repaired. Comparison shapes are strict and counted. A record is validated against the end of the block before a walk strides by its length (fast-commit tags, C06.f; genuine defect found and repaired).",
  "C08": " Round 4: the inode copy of the scan is not written after the block walk without a re-read (C08.f); a relocated inode table is written in full unless it moves up (C08.g; genuine defect found and repaired).",
- "C09": " Round 4: every replace/insert that can change a leaf's first key is followed by ext2fs_extent_fix_parents (C09.r).",
- "C10": " Round 4: an inode written after a call that rewrites the same on-disk inode (link, expand, inline-data helpers, block walk) was read again in between (C10.i); block and inode accounting of mkdir and symlink are rolled back on every failure after them, followed through flag and bit-mask values (C10.d).",
+ "C09": " Round 4: every replace/insert that can change a leaf's first key is followed by ext2fs_extent_fix_parents (C09.r). Expanding an inline-data file keeps i_size (C09.s, shared with C18.g).",
+ "C10": " Round 4: an inode written after a call that rewrites the same on-disk inode (link, expand, inline-data helpers, block walk) was read again in between (C10.i); block and inode accounting of mkdir and symlink are rolled back on every failure after them, followed through flag and bit-mask values (C10.d). Creation commands cut the path at its last '/' and refuse an existing name before they add the entry (C10.j; genuine defect in debugfs mknod found and repaired).",
  "C11": " Round 4: where the UNINIT group flags are dropped both bitmaps are marked dirty (C11.g).",
  "C13": " Round 4: stacked I/O managers (undo_io, test_io) hand the caller's flags to the backing open of the device; IO_FLAG_RW is spelled out only for a private file (C13.f).",
  "C14": " Round 4: a failed journal checksum is excused as stale only for a strictly older commit time (C14.i); an inode cache slot's buffer is overwritten only under a matching or cleared label (C14.j; genuine defect found and repaired).",
  "C15": " Round 4: i_blocks is charged for an EA block only when the inode had none (C15.f).",
- "C18": " Round 4: a populate step that is retried after ext2fs_expand_dir gives back the block and inode accounting of the failed attempt (C18.f).",
+ "C18": " Round 4: a populate step that is retried after ext2fs_expand_dir gives back the block and inode accounting of the failed attempt (C18.f). Expanding an inline-data file keeps i_size (C18.g; genuine defect found and repaired).",
  "C19": " Round 4: a recycled qcow2 table/refcount/header buffer is cleared over the length it is written or was allocated with (C19.h).",
  "C20": " Round 4: EXT2_FLAG_MASTER_SB_ONLY is set only on a freshly opened handle - no call that may clear it reaches a set without a re-open (C20.g).",
 }
